@@ -5,6 +5,7 @@ import (
 	"encoding/json"
 	"errors"
 	"io"
+	"log"
 	"os"
 	"strings"
 	"sync"
@@ -118,6 +119,9 @@ func runScript(script []scriptEntry, timeoutMs, waitMs int, chunked bool, cls st
 	ev := c13Event{Script: script, TZ: timeoutMs == 0, TimeoutMs: timeoutMs, WaitMs: waitMs, Chunked: chunked, Combined: combine, BufSize: bufSize, Msgs: []c13Msg{}, Cls: cls}
 	sr := &scriptedReader{script: script, chunked: chunked, combine: combine}
 	cfg := &jsonconfig.Config{TimeoutOnEOFMilliSeconds: uint(timeoutMs), WaitTimeOnEOFMilliseconds: uint(waitMs)}
+	if (len(script)+waitMs)%2 == 1 {
+		cfg.SystemLog = log.New(io.Discard, "", 0) // both with and without a system log configured
+	}
 	ch := make(chan handler.Message)
 	fh := filehandler.New(ch, cfg)
 	ret := make(chan error, 1)
